@@ -18,8 +18,10 @@
 (*  csv      : "absent" | "R"      legacy merchant_categories.csv          *)
 (*  csvbak   : "absent" | "B" | "R"   ...csv.bak                           *)
 (*  csvbak1  : "absent" | "R"         ...csv.bak1                          *)
-(*  rules    : "absent" | "U" | "M" | "starter"     merchants.rules        *)
-(*  rulesbak : "absent" | "U" | "starter"           merchants.rules.bak    *)
+(*  rules    : "absent" | "U" | "E" | "M" | "starter"   merchants.rules    *)
+(*             ("E": the user's file with notes, a variable and a field     *)
+(*              transform but no [rule] section - it is still their file)   *)
+(*  rulesbak : "absent" | "U" | "E" | "starter"     merchants.rules.bak    *)
 (*  views    : "absent" | "V" | "starter"           views.rules            *)
 (*  data     : "absent" | "D"                       data/card.csv          *)
 (*  gitignore: "absent" | "G" | "starter"                                  *)
@@ -82,7 +84,7 @@ Apply(c, f) ==
 \* --------------------------------------------------------------- behaviour --
 FS0s == [settings : {[base |-> "absent", app |-> <<>>], [base |-> "user", app |-> <<>>], [base |-> "userref", app |-> <<>>]},
          csv : {"absent", "R"}, csvbak : {"absent", "B"}, csvbak1 : {"absent"},
-         rules : {"absent", "U"}, rulesbak : {"absent"}, views : {"absent", "V"},
+         rules : {"absent", "U", "E"}, rulesbak : {"absent"}, views : {"absent", "V"},
          data : {"absent", "D"}, gitignore : {"absent", "G"}, report : {"absent", "old"}]
 
 Init == fs \in FS0s /\ fs0 = fs /\ hist = <<>>
@@ -118,11 +120,12 @@ MigrationOnlyOnRequest ==
 OnDisk(f, x) ==
   CASE x = "R" -> f.csv = "R" \/ f.csvbak = "R" \/ f.csvbak1 = "R"
     [] x = "U" -> f.rules = "U" \/ f.rulesbak = "U"
+    [] x = "E" -> f.rules = "E" \/ f.rulesbak = "E"
     [] x = "B" -> f.csvbak = "B"
     [] x = "V" -> f.views = "V"
     [] x = "D" -> f.data = "D"
     [] x = "G" -> f.gitignore = "G"
-BackupKeptAndNothingLost == \A x \in {"R", "U", "B", "V", "D", "G"} : OnDisk(fs0, x) => OnDisk(fs, x)
+BackupKeptAndNothingLost == \A x \in {"R", "U", "E", "B", "V", "D", "G"} : OnDisk(fs0, x) => OnDisk(fs, x)
 SettingsOnlyGrow == fs0.settings.base # "absent" => IsExtension(fs0.settings, fs.settings)
 \* negative control: must be refuted
 Neg_NeverMigrates == fs.rules # "M"
